@@ -58,6 +58,10 @@ def gen_case(ctx, g):
                 arg = r.choice([('fld', 'a', 0), ('NR',), ('add', ('fld', 'a', 0), ('lit', 'z'))])
             elif r.random() < 0.15:
                 arg = r.choice([('NR',), ('len', ('fld', 'a', col)), ('int', ('fld', 'a', col))])
+            elif r.random() < 0.06:
+                # a lower-case builtin call (one iterable / several arguments) as the ARGUMENT of an aggregate: a per-record number
+                arg = r.choice([('bsuml', ('list', [('len', ('fld', 'a', col)), ('lit', 2)])), ('bmaxl', ('list', [('len', ('fld', 'a', col)), ('lit', 2)])),
+                                ('bminl', ('list', [('len', ('fld', 'a', 0)), ('NR',)])), ('bmax', [('len', ('fld', 'a', col)), ('lit', 2)])])
             it = ('agg', kind, sp, arg)
             if kind == 'COUNT' and r.random() < 0.4:
                 it = ('agg', 'COUNT', sp, ('lit', 1), 'star')
@@ -107,7 +111,9 @@ def gen_case(ctx, g):
         # builtin sum('') == 0: lower-case sum keeps its builtin meaning on an (empty) iterable; outside the modelled fragment
         A = [[('x' if c == '' else c) for c in row] for row in A]
     # COUNT(*) is only rewritten at the start of the select list or after a comma: always true for a rendered item
-    return ec.make_case(r, qa, A, B, also_table=True, tags=['approx'] if approx else [])
+    c = ec.make_case(r, qa, A, B, also_table=True, tags=['approx'] if approx else [])
+    # the single-iterable builtin forms spelled with every kind of iterable (tuple, iter, generator expression, map, filter, reversed, zip ...)
+    return importlib.import_module('props.c03lazy').respell(ctx, c)
 
 
 def exhaustive_cases(ctx, limit):
